@@ -28,9 +28,10 @@ does *this*):
 * the worked examples of the document evaluate to the documented bytes (`int_example`, `point_example`,
   `masked_point_example`, `string_example`).
 
-NOTE (TL2): the TL2 shape lemmas (varlen sizes, per-object presence masks with the variant-index bit, packed bit
-arrays, counted arrays, key/value dictionaries; DESIGN Appendix A) belong here as well and are to be added when the
-TL2 model (`Codec/TL2.lean`, other builder) is merged; `Props/C33.lean` already has the varlen size lemmas.
+NOTE (TL2): the check now also ties generated TL2 code against `Codec/TL2.lean` driven by the generator's descriptor
+(`checks/C11.py`, sparse values over wide constructors). The TL2 *shape lemmas* (varlen sizes, per-object presence masks with the
+variant-index bit, packed bit arrays, counted arrays, key/value dictionaries; DESIGN Appendix A) are still to be stated here
+over `Codec/TL2.lean`; `Props/C33.lean` has the varlen size lemmas, `Props/C03.lean`/`C13.lean` the round-trip / evolution theorems.
 -/
 namespace TLVerif.Props.C11
 open TLVerif.Prim TLVerif.Codec
